@@ -263,17 +263,23 @@ Definition matches_add (h1 h2 : list op) (rg : reg) (x : tgt) : bool :=
   && negb (present (final_shape shape0 h1) rg x).
 
 (* ---- render time: x is a matching target of rg in the finished table *)
+(* the rows a pass visits: the header row, then the body rows and separators *)
+Definition rows_in_table (sh : shape) : list nat :=
+  match sh_header sh with Some h => [h] | None => [] end ++ sh_order sh.
+
+(* rg is one of the eight groups invoked for cell (r,c) *)
+Definition cell_groups (rg : reg) (r c : nat) : bool :=
+  is_for OTable GCell TPre rg || is_for (OColumn c) GCell TPre rg || is_for (ORow r) GCell TPre rg
+  || is_for OTable GCell TRender rg || is_for (OCell r c) GItself TRender rg
+  || is_for (ORow r) GCell TPost rg || is_for (OColumn c) GCell TPost rg || is_for OTable GCell TPost rg.
+
 Definition matches_render (sh : shape) (rg : reg) (x : tgt) : bool :=
-  let row_in_table r := existsb (Nat.eqb r) (sh_order sh) || match sh_header sh with Some h => h =? r | None => false end in
   match x with
   | XTable => is_for OTable GItself TPre rg || is_for OTable GItself TPost rg
   | XCol n => (n <=? sh_ncols sh) && (is_for (OColumn n) GItself TPre rg || is_for (OColumn n) GItself TPost rg)
-  | XRow r => row_in_table r && (r <? length (sh_rows sh)) && (is_for (ORow r) GItself TPre rg || is_for (ORow r) GItself TPost rg)
-  | XCell r c =>
-      row_in_table r && has_cell sh r c
-      && (is_for OTable GCell TPre rg || is_for OTable GCell TRender rg || is_for OTable GCell TPost rg
-          || is_for (OColumn c) GCell TPre rg || is_for (OColumn c) GCell TPost rg
-          || is_for (ORow r) GCell TPre rg || is_for (ORow r) GCell TPost rg
-          || is_for (OCell r c) GItself TRender rg)
+  | XRow r =>
+      existsb (Nat.eqb r) (rows_in_table sh)
+      && ((r <? length (sh_rows sh)) && (is_for (ORow r) GItself TPre rg || is_for (ORow r) GItself TPost rg))
+  | XCell r c => existsb (Nat.eqb r) (rows_in_table sh) && (has_cell sh r c && cell_groups rg r c)
   | XUnknown => false
   end.
